@@ -326,7 +326,9 @@ func Gen(t *rapid.T, anywhere bool) Case {
 				continue
 			}
 		}
-		switch rapid.IntRange(0, 5).Draw(t, "firstMode") {
+		switch rapid.IntRange(0, 6).Draw(t, "firstMode") {
+		case 6: // on a day boundary of the constellation's own day count
+			u = clamp(ws+int64(rapid.IntRange(0, 6).Draw(t, "firstDay"))*msDay+rapid.Int64Range(-1, 1).Draw(t, "firstDayEdge"), first, end)
 		case 0:
 			u = first
 		case 1:
@@ -371,7 +373,11 @@ func Gen(t *rapid.T, anywhere bool) Case {
 			maxGap := 6*msDay - 1
 			nextRoll := WeekStartMs(cc, u) + msWeek
 			var gap int64
-			switch rapid.IntRange(0, 8).Draw(t, "gapMode") {
+			switch rapid.IntRange(0, 10).Draw(t, "gapMode") {
+			case 9, 10: // land on / next to the next day boundary of the constellation's own day count
+				w0 := WeekStartMs(cc, u)
+				nextDay := w0 + ((u-w0)/msDay+1)*msDay
+				gap = nextDay + rapid.Int64Range(-1, 1).Draw(t, "dayEdge") - u
 			case 0:
 				gap = 0
 			case 1:
